@@ -353,19 +353,21 @@ func (e *Engine) shortPkg(path string) string {
 }
 
 // VerifyFunc generates and discharges the obligations of one function.
-func (e *Engine) VerifyFunc(con *Contract, oblTimeoutMs int) *FuncResult {
+func (e *Engine) VerifyFunc(key string, oblTimeoutMs int) *FuncResult {
+	con := e.cs.Funcs[key]
+	fname := strings.TrimPrefix(key, con.Pkg+".")
 	t0 := time.Now()
-	res := &FuncResult{Func: con.Func, Pkg: con.Pkg, Config: e.tags}
+	res := &FuncResult{Func: fname, Pkg: con.Pkg, Config: e.tags}
 	pi := e.pkgs[con.Pkg]
 	if pi == nil {
 		res.Missing = true
 		res.Unsupported = "package not loaded: " + con.Pkg
 		return res
 	}
-	fd := pi.funcs[con.Func]
+	fd := pi.funcs[fname]
 	if fd == nil {
 		res.Missing = true
-		res.Unsupported = "contract-target-missing: " + con.Func
+		res.Unsupported = "contract-target-missing: " + fname
 		return res
 	}
 	if con.Trusted || fd.Body == nil {
@@ -373,7 +375,7 @@ func (e *Engine) VerifyFunc(con *Contract, oblTimeoutMs int) *FuncResult {
 		return res
 	}
 	fx := &FuncCtx{eng: e, pkg: pi.pkg, info: pi.pkg.TypesInfo, decl: fd, con: con, cur: pi,
-		qname: con.Pkg + "." + con.Func, short: e.shortPkg(con.Pkg) + "." + con.Func,
+		qname: key, short: e.shortPkg(con.Pkg) + "." + fname,
 		declSet: map[string]bool{}, freshN: map[string]int{}, oblNames: map[string]int{}, cfg: e.tags,
 		ieee: con.Floats == "ieee", ovf: con.Overflow == "checked"}
 	func() {
